@@ -1,4 +1,6 @@
 import Driver.C08
+import Driver.C06
+import Driver.C05
 import Driver.C11
 import Driver.SqlTx
 import Driver.C14
@@ -20,6 +22,8 @@ namespace Driver
 
 structure State where
   c08 : C08.St := {}
+  c06 : C06.St := {}
+  c05 : C05.St := {}
   c13 : SqlTx.St := {}
   c12 : SqlTx.St := {}
   c11 : C11.St := {}
@@ -58,6 +62,8 @@ def step (st : State) (line : String) : State × String :=
   | "c11" :: rest => let (s, o) := C11.step st.c11 rest; ({ st with c11 := s }, o)
   | "c12" :: rest => let (s, o) := SqlTx.step' true st.c12 rest; ({ st with c12 := s }, o)
   | "c13" :: rest => let (s, o) := SqlTx.step' false st.c13 rest; ({ st with c13 := s }, o)
+  | "c05" :: rest => let (s, o) := C05.step st.c05 rest; ({ st with c05 := s }, o)
+  | "c06" :: rest => let (s, o) := C06.step st.c06 rest; ({ st with c06 := s }, o)
   | ["sha", h] => (st, match Bytes.ofHex h with | some b => Bytes.toHex (Sha256.sum b) | none => "bad-op")
   | _ => (st, "bad-op")
 
